@@ -339,6 +339,8 @@ func rejectInputs() []string {
 }
 
 func run(c *vf.Ctx) {
+	c.FullScope = true // the whole stated space takes well under a minute: both tiers run it
+	c.Set("scope_note", "quick and thorough tiers run the same (full) scope")
 	B := boundary(!c.Quick())
 	c.Set("boundary_values", len(B))
 	c.Set("rule", "all ordered pairs (a,b) of the boundary set B (bit boundaries 2^k-1,2^k,2^k+1, hi/lo mixes, divisors with every leading-zero count and their multiples ±1, powers of ten) x {Add,Sub,Mul,Div,Cmp/Equals} plus 64-bit variants for b<2^64; every value through every text form; a case is non-trivial/distinct per (op, a, b) triple whose reference result class (exact/overflow/underflow/div0) and operands differ")
